@@ -148,7 +148,12 @@ def histogram2d(data1, data2, bins=None, **kwargs):
     """Facade function to create 2D histogram using dask."""
     # TODO: currently very unoptimized! for non-dasks
     if "axis_names" not in kwargs:
-        if hasattr(data1, "name") and hasattr(data2, "name"):
+        if (
+            hasattr(data1, "name")
+            and hasattr(data2, "name")
+            and not hasattr(data1, "dask")  # (Their names are keys of the task graph)
+            and not hasattr(data2, "dask")
+        ):
             kwargs["axis_names"] = [data1.name, data2.name]
     if not hasattr(data1, "dask"):
         data1 = np.asarray(data1)
